@@ -1093,8 +1093,8 @@ pub fn swarm_for(profile: &str, rng: &mut Rng, thorough: bool) -> Swarm {
             sw.w.pragma_checkpoint = 1;
             sw.w.close_reopen = 1;
             if rng.chance(1, 2) {
-                sw.w.begin = 5;
-                sw.w.commit = 6;
+                sw.w.begin = 6;
+                sw.w.commit = 12;
                 sw.w.rollback = 2;
             }
             if rng.chance(1, 3) {
@@ -1112,11 +1112,13 @@ pub fn swarm_for(profile: &str, rng: &mut Rng, thorough: bool) -> Swarm {
                 sw.max_rows_per_insert = 64;
                 sw.p_multi_insert = 90;
                 sw.w.insert *= 3;
-                sw.w.begin = 8;
-                sw.w.commit = 3;
+                sw.w.begin = 10;
+                sw.w.commit = 10;
                 sw.w.rollback = 1;
                 sw.w.truncate = 0;
-                sw.n_ops = sw.n_ops.max(16);
+                sw.w.select = 2;
+                sw.w.count = 1;
+                sw.n_ops = sw.n_ops.max(24);
             }
         }
         "config" => {
